@@ -57,6 +57,13 @@ def third_party_font(rng, force_notdef=False):
     if rng.random() < 0.4 or force_notdef:
         names[0] = ".notdef"   # a coloured .notdef keeps gid 0, so the colour glyphs cannot be one run of consecutive gids
     glyphs = {name: g(rng.randint(1, 3)) for name in names}
+    # one glyph always carries two stacked transforms that do not commute (scale/rotate/skew outside a translate)
+    leaf = {"Format": 10, "Glyph": rng.choice(["x1", "x2", "x3"]), "Paint": C13.gen_fill(rng, npal)}
+    inner = {"Format": 14, "Paint": leaf, "dx": rng.choice([-200, 150, 300]), "dy": rng.choice([100, -150, 250])}
+    outer = C13.gen_transform_wrap(rng, inner)
+    while outer["Format"] == 14:
+        outer = C13.gen_transform_wrap(rng, inner)
+    glyphs[names[-1]] = outer if rng.random() < 0.7 else {"Format": 1, "Layers": [outer, g(1)]}
     font["COLR"] = builder.buildCOLR(glyphs, version=1)
     pals = [C13.PALETTE0] + ([[(c[1], c[2], c[0], 1.0) for c in C13.PALETTE0]] if rng.random() < 0.5 else [])
     font["CPAL"] = builder.buildCPAL(pals)
